@@ -87,11 +87,24 @@ impl GraphBlock {
                 .map(|line| inlines_to_markdown(line, options))
                 .collect::<Vec<String>>()
                 .join("\n"),
-            GraphBlock::CodeBlock(lang, text) => lang
-                .clone()
-                .filter(|lang| !lang.trim().is_empty())
-                .map(|lang| format!("``` {}\n{}\n```\n", lang, text.trim_matches('\n')))
-                .unwrap_or_else(|| format!("```\n{}\n```\n", text.trim_matches('\n'))),
+            GraphBlock::CodeBlock(lang, text) => {
+                // the fence must be longer than any run of backticks in the body
+                let fence = "`".repeat(longest_backtick_run(text).max(2) + 1);
+                lang.clone()
+                    .filter(|lang| !lang.trim().is_empty())
+                    .map(|lang| {
+                        format!(
+                            "{} {}\n{}\n{}\n",
+                            fence,
+                            lang,
+                            text.trim_matches('\n'),
+                            fence
+                        )
+                    })
+                    .unwrap_or_else(|| {
+                        format!("{}\n{}\n{}\n", fence, text.trim_matches('\n'), fence)
+                    })
+            }
             GraphBlock::RawBlock(_, text) => text.clone(),
             GraphBlock::BlockQuote(blocks) => {
                 blocks_to_markdown_sparce(blocks, options)
@@ -624,6 +637,13 @@ pub fn inlines_to_markdown(content: &GraphInlines, options: &MarkdownOptions) ->
         .map(|i| i.to_markdown(options))
         .collect::<Vec<String>>()
         .join("")
+}
+
+fn longest_backtick_run(text: &str) -> usize {
+    text.split(|c| c != '`')
+        .map(|run| run.len())
+        .max()
+        .unwrap_or(0)
 }
 
 pub fn blocks_to_markdown_and(blocks: &Blocks, sparce: bool, options: &MarkdownOptions) -> String {
